@@ -73,7 +73,7 @@ bool op_spec(const Op& o, Spec& s)
 	s.burn	  = (unsigned) o.i[3];
 	s.bounded = (int) o.i[4];
 	s.p		  = o.d;
-	static const size_t need[] = {2, 2, 1, 3, 4, 6, 5, 8, 1};
+	static const size_t need[] = {2, 2, 1, 3, 4, 6, 5, 6, 1};
 	return s.p.size() >= need[s.kind];
 }
 
@@ -281,6 +281,12 @@ std::vector<double> draw(std::mt19937& G, const Spec& s, Counters* cnt = nullptr
 				{
 					double zx = (x - mx) / wx, zy = (y - my) / wy;
 					return std::exp(-0.5 * (zx * zx + zy * zy));
+				}
+				if(fam == 2)
+				{
+					// correlated Gaussian, correlation rho = p[6]
+					double zx = (x - mx) / wx, zy = (y - my) / wy, rho = p[6];
+					return std::exp(-0.5 * (zx * zx - 2 * rho * zx * zy + zy * zy) / (1 - rho * rho));
 				}
 				return (x - x0) / (x1 - x0) + (y - y0) / (y1 - y0) + 1e-300;
 			};
@@ -649,7 +655,22 @@ struct Exec
 			{
 				if(s.sample != 1)
 					break;
-				if(s.family == 0)
+				if(s.family == 2)
+				{
+					long double rho = p[6];
+					dkw(s, "Sample_Metropolis_2D (correlated) x marginal", xs, [&](double x) { return Phi(((long double) x - p[2]) / p[3]); }, 1e-4 + 1e-6);
+					dkw(s, "Sample_Metropolis_2D (correlated) y marginal", ys, [&](double y) { return Phi(((long double) y - p[4]) / p[5]); }, 1e-4 + 1e-6);
+					std::vector<double> sum, dif;
+					for(size_t k = 0; k < xs.size(); k++)
+					{
+						double zx = (xs[k] - p[2]) / p[3], zy = (ys[k] - p[4]) / p[5];
+						sum.push_back(zx + zy);
+						dif.push_back(zx - zy);
+					}
+					dkw(s, "Sample_Metropolis_2D (correlated) projection zx+zy", sum, [&](double t) { return Phi((long double) t / sqrtl(2 + 2 * rho)); }, 1e-4 + 1e-6);
+					dkw(s, "Sample_Metropolis_2D (correlated) projection zx-zy", dif, [&](double t) { return Phi((long double) t / sqrtl(2 - 2 * rho)); }, 1e-4 + 1e-6);
+				}
+				else if(s.family == 0)
 				{
 					dkw(s, "Sample_Metropolis_2D x marginal", xs, [&](double x) { return Phi(((long double) x - p[2]) / p[3]); }, 1e-4 + 1e-6);
 					dkw(s, "Sample_Metropolis_2D y marginal", ys, [&](double y) { return Phi(((long double) y - p[4]) / p[5]); }, 1e-4 + 1e-6);
@@ -868,12 +889,14 @@ struct Gen
 			}
 			case 7:
 			{
-				s.family  = (int) r.below(2);
+				s.family  = (int) r.below(3);
 				s.bounded = s.family == 1;
 				if(!s.bounded)
 				{
 					double wx = r.logrange(1e-2, 1e2), wy = r.logrange(1e-2, 1e2);
 					s.p = {wx * r.range(0.7, 1.4), wy * r.range(0.7, 1.4), r.range(-1.5, 1.5) * wx, wx, r.range(-1.5, 1.5) * wy, wy};
+					if(s.family == 2)
+						s.p.push_back(r.sign() * r.range(0.2, 0.7));   // correlation of the target
 				}
 				else
 				{
